@@ -102,7 +102,8 @@ PROPS['C11'] = Prop('C11', harness='c11', entries=['c11rt', 'm1c', 'm1c_h', 'm1c
                     trusted=M1_TRUSTED + ['real-time lane c11rt: wall-clock trace of writes and conclusions, judged by the Coq-proved timing monitor of C08'],
                     assumptions=M1_ASSUME, rule='real-time lane: server endpoints of both versions, a request outstanding when the session ends, the same id reconnects, a new request must get its own full timeout (2 runs per version, thorough 10); ' + M1_RULE,
                     design_ref='5 C11', confirm_slow=True, monitor_prefixes=['C11'], spec_entries=['c11rt'], search_n=3000, harness_timeout=1200,
-                    extra=scenario_extra(('C11-stale-pending-after-session-end', 7, 'bare ocppj.Server without an application disconnect handler: a session ends with a request outstanding, the same id reconnects, the reply to the new session\'s first request must be accepted')))
+                    extra=scenario_extra(('C11-timeout-of-one-client-dispatches-for-another', 16, 'client C times out right after client A completed an exchange; the application\'s cancel handler sends a request to A: it goes to A once, nothing is written to C, nothing crashes (F1)'),
+                                         ('C11-stale-pending-after-session-end', 7, 'bare ocppj.Server without an application disconnect handler: a session ends with a request outstanding, the same id reconnects, the reply to the new session\'s first request must be accepted')))
 PROPS['C16'] = m1prop('C16', 'theories/Props/C16.v', ['C16', 'panic'], spec_entries=['m1c_fresh'],
                       extra=scenario_extra(('C16-send-racing-stop', 5, 'real sockets: 4 goroutines send on a charge point while Stop is called, 40 rounds; nothing may crash or block (F10)'),
                                             ('C16-stale-ready-token-after-restart', 11, 'gated: Stop arrives while a ready token is unconsumed (pump held in the cancel callback), 12 tries; after Start the first request is written exactly once (F31)'),
